@@ -10,19 +10,22 @@ from ..report import Ctx
 from .common import INDIVIDUAL, STEP
 
 LEVEL_TEXT = (
-    "Finite-model interpretation of TournamentSelection.iterate and LexicaseSelection.iterate (found through GeneticStep by "
-    "their constructor parameters; helper methods, closures and lambdas inlined; nothing is executed).  The population is "
-    "three symbolic individuals with small concrete fitness values, the random source is a script: choice picks by index, "
-    "shuffle applies the next scripted permutation in place and returns its argument (as RandomSource.shuffle does). (R1) "
-    "tournament, for sizes 1, 2 and 4, with/without replacement, 4 fitness assignments (ties, all -inf, minimised problem "
-    "where the raw component orders the other way) x 3 pick scripts: every winner is a member of the population, one of the "
-    "participants drawn for its tournament, at least as fit (maximising aggregate) as each of them, and tournament_size "
-    "participants are drawn; Individual.key_function is the maximising aggregate. (R2) lexicase: exactly one shuffle of the "
-    "full case list between consecutive winners. (R3) every winner is among the survivors of the reference lexicase filter "
-    "for that winner's scripted order over the individuals still available - all four minimise-flag combinations, two "
-    "fitness tables, epsilon off and on (median absolute deviation band), a crash for lack of survivors is a violation. "
-    "(R4) winners are members of the population and none is returned twice. Decides these for the model sizes and all "
-    "scripted draws; outcome distributions are not decided."
+    "Finite-model interpretation of TournamentSelection.iterate and LexicaseSelection.iterate (found through "
+    "GeneticStep by their constructor parameters; helper methods, closures and lambdas inlined; nothing is "
+    "executed).  The population is three symbolic individuals with small concrete fitness values, the random "
+    "source is a script: choice picks by index, shuffle applies the next scripted permutation in place and "
+    "returns its argument (as RandomSource.shuffle does). (R1) tournament, for sizes 1, 2 and 4, with/without "
+    "replacement, 4 fitness assignments (ties, all -inf, minimised problem where the raw component orders the "
+    "other way) x 3 pick scripts: every winner is a member of the population, one of the participants drawn for "
+    "its tournament, at least as fit (maximising aggregate) as each of them, and tournament_size participants are"
+    " drawn; Individual.key_function is interpreted on individuals holding fitnesses for two problems: it returns"
+    " the maximising aggregate of the fitness stored for the problem it was built for, of the individual it is "
+    "given. (R2) lexicase: exactly one shuffle of the full case list between consecutive winners. (R3) every "
+    "winner is among the survivors of the reference lexicase filter for that winner's scripted order over the "
+    "individuals still available - all four minimise-flag combinations, two fitness tables, epsilon off and on "
+    "(median absolute deviation band), a crash for lack of survivors is a violation. (R4) winners are members of "
+    "the population and none is returned twice. Decides these for the model sizes and all scripted draws; outcome"
+    " distributions are not decided."
 )
 
 
